@@ -59,7 +59,7 @@ WTExpr(e, lim) ==
     [] e.k = "paren" -> WTExpr(e.e, lim)
     [] e.k = "test" -> WTQuery(e.q, lim)
     [] e.k = "ftest" -> FnOK([f |-> e.f, args |-> e.args], lim) /\ FnSig(e.f).ret \in {"logical", "nodes"}
-    [] e.k = "cmp" -> e.op \in {"==", "!=", "<", "<=", ">", ">="} /\ Comparable(e.l, lim) /\ Comparable(e.r, lim)
+    [] e.k = "cmp" -> e.op \in {"==", "!=", "<", "<=", ">", ">=", "<>"} /\ Comparable(e.l, lim) /\ Comparable(e.r, lim)     \* "<>" is the documented alias of "!="
     [] e.k = "litexpr" -> FALSE       \* a literal that is not compared
     [] OTHER -> FALSE
 
